@@ -36,12 +36,25 @@ def gen(ctx):
                 f["data"]["feat0"] = [100 - v for v in f["data"]["feat0"]]
             files.append(f)
         fdr = rng.choice(["0.1", "0.25", "0.5"])
+        train_fdr = rng.choice([fdr, fdr, "0.1", "0.25", "0.5"])
         kind = rng.choice(["col", "col", "const", "neg"])
         cases.append({"fn": "brew", "files": files, "folds": rng.randint(2, 3), "seed": rng.randint(0, 10 ** 6),
-                      "test_fdr": fdr, "train_fdr": float(fdr), "workers": 1, "subset_max_train": None, "chunks": {},
+                      "test_fdr": fdr, "train_fdr": float(train_fdr), "workers": 1, "subset_max_train": None, "chunks": {},
                       "fmt": rng.choice(["tsv", "parquet"]), "row_group": None, "est_mode": "decision",
                       "est_kind": kind, "learn": False, "override": rng.random() < 0.3, "max_iter": rng.choice([1, 2]),
-                      "tags": ["brew", "kind=" + kind, "low" if low else "high", f"files={nfiles}", "fdr=" + fdr]})
+                      "tags": ["brew", "kind=" + kind, "low" if low else "high", f"files={nfiles}", "fdr=" + fdr, "train_fdr=" + train_fdr]})
+    # training FDR and evaluation FDR differ: the comparison must be made at the evaluation FDR
+    for (tr, te) in (("0.5", "0.1"), ("0.5", "0.25"), ("0.25", "0.1"), ("0.1", "0.5")):
+        for rep in range(3 if ctx.thorough else 2):
+            n = rng.randint(80, 160)
+            f = brewlib.gen_file(rng, n, 2, file_idx=0, mult=(1, 2), label_enc="pm1", quality=rng.choice([0.5, 0.7]))
+            for other in ("feat1", "feat2"):      # feat0 is the best feature in every fold, so training succeeds
+                f["data"][other] = [rng.randint(0, 60) for _ in range(n)]
+            cases.append({"fn": "brew", "files": [f], "folds": 3, "seed": rng.randint(0, 10 ** 6),
+                          "test_fdr": te, "train_fdr": float(tr), "workers": 1, "subset_max_train": None, "chunks": {},
+                          "fmt": "tsv", "row_group": None, "est_mode": "decision", "est_kind": "col", "learn": False,
+                          "override": False, "max_iter": 1,
+                          "tags": ["brew", "kind=col", "high", "files=1", "fdr=" + te, "train_fdr=" + tr, "fdr-mismatch"]})
     # direction clause through assign_confidence
     for c in c03.gen(ctx)[: (60 if ctx.thorough else 16)]:
         if c["ties"]:
